@@ -197,12 +197,8 @@ func (ex *Exec) loopWrites(li *loopInfo) (comps map[string]bool, locals map[stri
 				if r, ok := x.Iter.(*ssa.Range); ok {
 					locals["|"+ex.fn.Name()+"."+r.Name()+".visited|"] = true
 				}
-			case *ssa.Go, *ssa.Select:
+			case *ssa.Go:
 				all = true
-			case *ssa.UnOp:
-				if x.Op.String() == "<-" {
-					all = true
-				}
 			case ssa.CallInstruction:
 				c := x.Common()
 				if b, ok := c.Value.(*ssa.Builtin); ok && !c.IsInvoke() {
@@ -780,6 +776,12 @@ func (ex *Exec) funcEnv(st *State) *Env {
 
 // ---------- pure functions ----------
 
+// applyPureClosure: a closure used as a pure function; bindings are the captured cell references.
+func (ex *Exec) applyPureClosure(st *State, fn *ssa.Function, bindings []string, args []string) string {
+	all := append(append([]string{}, args...), bindings...)
+	return ex.applyPure(st, fn, ex.P.Contracts[funcKey(fn)], all)
+}
+
 func (ex *Exec) applyPure(st *State, fn *ssa.Function, con *Contract, args []string) string {
 	pd := ex.g.pureDefFor(fn, con)
 	var all []string
@@ -821,8 +823,10 @@ func (g *Gen) pureDefFor(fn *ssa.Function, con *Contract) *pureDef {
 		ex.vals[p] = n
 		params = append(params, fmt.Sprintf("(%s %s)", n, g.sortOf(p.Type())))
 	}
-	if len(fn.FreeVars) > 0 {
-		panic(unsupported{"pure closure with free variables: " + key})
+	for _, fv := range fn.FreeVars {
+		n := "|pf:" + fv.Name() + "|"
+		ex.vals[fv] = n
+		params = append(params, fmt.Sprintf("(%s Int)", n))
 	}
 	st := g.entryState()
 	body := ex.pureBlock(fn.Blocks[0], nil, st, 0)
